@@ -27,4 +27,8 @@ PROPS = {
     "C07": hist("^TestC07", "hostile histories: all tx types with semantic and byte-level perturbations, garbage bytes, replays, arbitrary vote sets, evidence against validators/candidates/unknown addresses, time jumps; oracle: no ABCI call panics and an empty block still commits afterwards; non-trivial = some input reached Run or a block had absences/evidence; distinct by step-list hash", qchecks=350),
     "C09": hist("^TestC09", "twin histories: node R restarted (1-3 times in a row) at drawn block boundaries vs node N never restarted, same ABCI requests; oracle: every response digest equal, and after every Commit info/app hash, export JSON, emission, versions, validators and events of the height equal; non-trivial = at least one restart followed by a block with an accepted tx; distinct by step-list hash", qchecks=220, tchecks=1500),
     "C08": hist("^TestC08", "(a) two instances in one process fed the same generated requests (multi-entity blocks of up to 12 txs); (b) every 8th generated scenario is recorded as data and replayed by three child processes with GOMAXPROCS/GOGC = 1/10, 4/100, 16/off; oracle: response digests, validator updates, app hashes and query results identical; non-trivial = a block with >= 2 accepted transactions; distinct by step-list hash", qchecks=200, tchecks=1500),
+    "C03": hist("^TestC03", "twin differential: after a generated warm-up history a drawn transaction (biased to fail inside Run) is delivered alone in a neutral block on fork X while fork Y executes the same block empty; oracle: flattened export diff must lie inside the failure-fee set (payer gas-coin balance, gas coin volume/reserve or pool(gas,base) reserves+orders+order owners+burn address, validators' accruals, total slashed), ledger totals equal, accepted => nonce+1; non-trivial = rejected inside Run with a positive payer balance; distinct by tx bytes + state", qchecks=280, tchecks=2000),
+    "C04": hist("^TestC04", "histories with replays of earlier accepted/rejected byte strings, nonces n-1..n+2 and both chain ids, restarts in between; oracle: per-sender nonce model (accepted => nonce == last+1 and chain id matches; bytes accepted once are never accepted again; GetNonce follows the model; rejected => nonce unchanged); non-trivial = history containing a replay of accepted bytes or an out-of-order nonce", qchecks=500, tchecks=3000),
+    "C06": hist("^TestC06", "swap/fee-weighted histories; before every DeliverTx the same bytes run through the node's executor in check mode on CurrentState (fresh mempool map, min gas price 1); oracle: (check code == 0) == (deliver code == 0), gas price 0 excluded; non-trivial = a tx that got past signature and nonce checks", qchecks=400, tchecks=2500),
+    "C26": hist("^TestC26", "histories delivering identical byte strings 2+ times (same block, later blocks, after restarts, redeem-check included); oracle: payer gas-coin balance read around every delivery, any delivery after the first must be rejected and free; redelivery after a Run-rejected first delivery is the known finding S2 (excluded and counted); non-trivial = a redelivery that is not the known finding", qchecks=500, tchecks=3000),
 }
